@@ -10,6 +10,18 @@ def trace_classes(trace, keys):
     n = 0
     with open(trace) as f:
         for line in f:
+            if '"ev":"cenc"' in line[:80]:
+                n += 1
+                i = line.find('"ts":')
+                j = line.find('"src":')
+                e = json.loads("{" + line[i:j].rstrip(",") + "}")
+                pf = (e.get("params") or {}).get("fields") or {}
+                info = e["info"]
+                seen.add((e["ts"], info["ba"], info["bs"], info["spp"], info["pixrep"], (e.get("params") or {}).get("kind"),
+                          pf.get("rate"), pf.get("numLayers"), pf.get("numLevels"), pf.get("blockWidth"), pf.get("blockHeight"), e.get("cls")))
+                if len(samples) < 3:
+                    samples.append(e)
+                continue
             if '"ev":"enc"' not in line[:80]:
                 continue
             n += 1
